@@ -710,6 +710,10 @@ func skolemize(goal string, assumes []string, tag int) (decls []string, newGoal 
 		decls = append(decls, fmt.Sprintf("(declare-const %s %s)", name, b.sort))
 		body = substTerm(body, b.name, name)
 		sk[b.sort] = append(sk[b.sort], name)
+		if b.sort == "Int" {
+			// index arithmetic: facts about element i-1 are needed for goals about element i
+			sk[b.sort] = append(sk[b.sort], "(- "+name+" 1)")
+		}
 	}
 	newGoal = body
 	if prefix != "" {
@@ -736,7 +740,7 @@ func skolemize(goal string, assumes []string, tag int) (decls []string, newGoal 
 				}
 			}
 			combos = next
-			if len(combos) > 27 {
+			if len(combos) > 64 {
 				feasible = false
 				break
 			}
